@@ -333,8 +333,15 @@ func Equal(a, b ast.Node) bool {
 	case *ast.ChanType:
 		b := b.(*ast.ChanType)
 		return a.Dir == b.Dir && (a.Arrow == token.NoPos && b.Arrow == token.NoPos || a.Arrow != token.NoPos && b.Arrow != token.NoPos)
+	case *ast.FuncType:
+		b := b.(*ast.FuncType)
+		return Equal(a.TypeParams, b.TypeParams) && Equal(a.Params, b.Params) && Equal(a.Results, b.Results)
 	case *ast.FieldList:
 		b := b.(*ast.FieldList)
+		if a == nil || b == nil {
+			// optional field lists, e.g. the results of a function type
+			return a == b
+		}
 		if len(a.List) != len(b.List) {
 			return false
 		}
